@@ -63,6 +63,10 @@ pub enum SchedEvent {
     Blocking(bool),
     /// The calling thread notified the head of the wait list.
     NotifiedHead,
+    /// The calling thread (a flush or an external ingest) found level 0 at the stall threshold
+    /// and is about to wait for a compaction to make room (it holds the tree's compaction lock;
+    /// the hook must not block).
+    IngestStalled,
 }
 
 static SCHED_HOOK: std::sync::RwLock<Option<fn(SchedEvent)>> = std::sync::RwLock::new(None);
